@@ -28,8 +28,8 @@ const THOROUGH_BUDGET_CORE_S: f64 = 5500.0;
 const CHUNK: usize = 300;
 /// hand-written programs that are in the universe of both tiers whatever their length: two of the non-ASCII programs (thorough
 /// reaches all five by length) and the five tiny programs with default / named arguments, constructors with defaults, a member function
-const ALWAYS: [&str; 8] =
-    ["hand/accents", "hand/japanese", "tiny/default-args", "tiny/named-args", "tiny/struct-defaults", "tiny/enum-defaults", "tiny/member-fn", "tiny/alias-import"];
+const ALWAYS: [&str; 9] =
+    ["hand/accents", "hand/japanese", "tiny/default-args", "tiny/named-args", "tiny/struct-defaults", "tiny/enum-defaults", "tiny/member-fn", "tiny/alias-import", "tiny/qualified-member"];
 
 fn files(tier: Tier) -> Vec<usize> {
     tu::pick_files(ALPHA_CORE.len(), CASE_US, PER_BYTE_US, tier.pick(QUICK_BUDGET_CORE_S, THOROUGH_BUDGET_CORE_S), &ALWAYS)
@@ -175,7 +175,7 @@ impl Prop for C34 {
         let c = tu::corpus();
         let raw: usize = plan(tier).iter().map(|d| d.hi - d.lo).sum();
         format!(
-            "{} of the {} corpus programs = hand/accents, hand/japanese, the six tiny/* programs and the shortest files within a cost budget (longest {} bytes; corpus as in C04; thorough reaches all 5 hand-written non-ASCII programs), each with its complete \
+            "{} of the {} corpus programs = hand/accents, hand/japanese, the seven tiny/* programs and the shortest files within a cost budget (longest {} bytes; corpus as in C04; thorough reaches all 5 hand-written non-ASCII programs), each with its complete \
              deviation ≤ 1 neighbourhood (identity, every prefix, every single-token deletion, replacement by each of {} alphabet tokens, insertion of one of {:?} at every char boundary, adjacent-token swap, replacement of every identifier token by every other identifier of the same file; \
              {} raw mutants, repeated texts skipped and counted); per text one check_lsp analysis, errors(), and definition_at / type_at / completions_at at EVERY byte offset 0..=len+1 \
              (including offsets inside multi-byte chars and one past the end); oracle: no panic in the analysis, in any query, or in dropping the result. \
